@@ -54,11 +54,53 @@ fn is_bad(bad: u64, k: u64, i: u64) -> bool {
     bad > 0 && (7 * i + 3 * k) % bad == 0
 }
 
+/// the identity word of line `i` of source `k`: it is repeated through the line, so that a substring preprocessing
+/// keeps at least one whole copy, and it survives the removal of all white space
+fn id_word(k: u64, i: u64) -> String {
+    format!("w{k}x{i}w")
+}
+
+/// the first whole identity word in `s`
+fn find_id(s: &str) -> Option<(u64, u64)> {
+    let b = s.as_bytes();
+    let mut p = 0;
+    while p < b.len() {
+        if b[p] == b'w' {
+            let mut q = p + 1;
+            let d1 = q;
+            while q < b.len() && b[q].is_ascii_digit() {
+                q += 1;
+            }
+            if q > d1 && q < b.len() && b[q] == b'x' {
+                let d2 = q + 1;
+                let mut e = d2;
+                while e < b.len() && b[e].is_ascii_digit() {
+                    e += 1;
+                }
+                if e > d2 && e < b.len() && b[e] == b'w' {
+                    return Some((s[d1..q].parse().ok()?, s[d2..e].parse().ok()?));
+                }
+            }
+        }
+        p += 1;
+    }
+    None
+}
+
+/// does this pipeline need files whose lines carry a class label as their target?
+fn cls_files(prep: u64) -> bool {
+    prep == 14
+}
+
 fn files(lens: &[u64], bad: u64) -> Vec<String> {
+    files_for(lens, bad, false)
+}
+
+fn files_for(lens: &[u64], bad: u64, cls: bool) -> Vec<String> {
     let dir = tmp();
     let mut v = vec![];
     for (k, &n) in lens.iter().enumerate() {
-        let path = format!("{dir}/src-{k}-{n}-{bad}.jsonl");
+        let path = format!("{dir}/src-{k}-{n}-{bad}-{}.jsonl", cls as u8);
         if !std::path::Path::new(&path).exists() {
             let mut f = std::fs::File::create(&path).unwrap();
             for i in 0..n {
@@ -68,7 +110,13 @@ fn files(lens: &[u64], bad: u64) -> Vec<String> {
                     continue;
                 }
                 // the first word carries the identity; the rest gives the corruptions something to work on
-                writeln!(f, "{{\"input\": \"{k}x{i} the quick brown fox jumps over a lazy dog\"}}").unwrap();
+                let w = id_word(k as u64, i);
+                let text = format!("{w} the quick {w} brown fox {w} jumps over {w} a lazy dog {w}");
+                if cls {
+                    writeln!(f, "{{\"input\": \"{text}\", \"target\": \"c{}\"}}", (i + k as u64) % 3).unwrap();
+                } else {
+                    writeln!(f, "{{\"input\": \"{text}\"}}").unwrap();
+                }
             }
         }
         v.push(path);
@@ -102,18 +150,76 @@ fn byte_tok() -> TokenizerConfig {
     }
 }
 
-fn pipeline(prep: u64) -> TrainPipelineConfig {
-    let ws = PreprocessingFnConfig::WhitespaceCorruption(Part::Input, 0.3, 0.3, true);
-    let spell = PreprocessingFnConfig::SpellingCorruption(Part::Input, 0.5, true, SpellingCorruptionMode::Artificial(0.3, 2.0, Some(char_file().into())));
-    let p = match prep {
-        0 => PreprocessingFnConfig::None,
-        1 => ws,
-        2 => PreprocessingFnConfig::Switch(vec![PreprocessingFnConfig::None, ws], vec![0.5, 0.5]),
-        3 => spell,
-        _ => PreprocessingFnConfig::Chain(vec![spell, ws]),
-    };
-    let task = if prep <= 2 { TrainTaskConfig::WhitespaceCorrection(true, byte_tok()) } else { TrainTaskConfig::Generation(false, byte_tok(), true, None) };
-    TrainPipelineConfig { preprocessing: PreprocessingConfig::Global(p), task, postprocessing: PostprocessingConfig::Global(PostprocessingFnConfig::None) }
+/// misspellings file of the realistic / mixed spelling corruption (whole words and word parts)
+fn missp_file() -> String {
+    let p = format!("{}/missp.json", tmp());
+    if !std::path::Path::new(&p).exists() {
+        std::fs::write(&p, r#"{"quick": ["quikc", "qick", "quik"], "the": ["teh", "hte"], "lazy": ["lasy", "lazzy"], "over": ["ovre"], "brown": ["brwon", "bronw"], "dog": ["dgo"], "jumps": ["jmups", "jumsp"], "fox": ["fxo"]}"#).unwrap();
+    }
+    p
+}
+
+/// number of pipeline configurations `pipeline` knows
+pub const N_PREP: u64 = 16;
+
+/// `max_length` of the loader (what `ClipLength` clips to)
+fn max_len(prep: u64) -> usize {
+    match prep {
+        5 | 9 | 13 => 40,
+        _ => 512,
+    }
+}
+
+/// the pipeline configurations: between them every preprocessing function that draws from the item's random
+/// stream (whitespace / spelling corruption in its three modes, switch, the two substring functions), the pure ones
+/// (clean, normalise, overwrite, prefix, suffix, no / full white space, mark), all four tasks, and every
+/// postprocessing function (token masking, clip, chain, switch, on-mark, switch-on-mark), global and per source
+fn pipeline(prep: u64, nfiles: usize) -> TrainPipelineConfig {
+    use PostprocessingFnConfig as Po;
+    use PreprocessingFnConfig as Pr;
+    let ws = Pr::WhitespaceCorruption(Part::Input, 0.3, 0.3, true);
+    let spell = Pr::SpellingCorruption(Part::Input, 0.5, true, SpellingCorruptionMode::Artificial(0.3, 2.0, Some(char_file().into())));
+    let real = Pr::SpellingCorruption(Part::Input, 0.6, false, SpellingCorruptionMode::Realistic(missp_file().into()));
+    let mixed = Pr::SpellingCorruption(Part::Input, 0.7, true, SpellingCorruptionMode::Mixed(0.5, 0.3, 2.0, Some(char_file().into()), missp_file().into()));
+    let mask = Po::TokenMasking(byte_tok(), 0.3, 1, 0.5, "<unk>".to_string());
+    let wsc = TrainTaskConfig::WhitespaceCorrection(true, byte_tok());
+    let gen = TrainTaskConfig::Generation(false, byte_tok(), true, None);
+    let cond = TrainTaskConfig::ConditionalGeneration(byte_tok(), true, byte_tok(), false);
+    let g = |p: Pr, task: TrainTaskConfig, post: Po| TrainPipelineConfig { preprocessing: PreprocessingConfig::Global(p), task, postprocessing: PostprocessingConfig::Global(post) };
+    match prep {
+        0 => g(Pr::None, wsc, Po::None),
+        1 => g(ws, wsc, Po::None),
+        2 => g(Pr::Switch(vec![Pr::None, ws], vec![0.5, 0.5]), wsc, Po::None),
+        3 => g(spell, gen, Po::None),
+        4 => g(Pr::Chain(vec![spell, ws]), gen, Po::None),
+        5 => g(
+            Pr::Chain(vec![Pr::Clean(Part::Input, true), Pr::Normalize(Part::Input, text_utils::unicode::Normalization::NFKC, true), Pr::Prefix(Part::Input, "p: ".into()), Pr::Suffix(Part::Target, " s".into())]),
+            cond,
+            Po::ClipLength,
+        ),
+        6 => g(Pr::Chain(vec![ws, Pr::CharSubstring(50, true)]), wsc, Po::None),
+        7 => g(Pr::Chain(vec![ws, Pr::ByteSubstring(60, false)]), TrainTaskConfig::WhitespaceCorrection(false, byte_tok()), Po::None),
+        8 => g(Pr::Switch(vec![Pr::NoWhitespaces(Part::Input, true), Pr::FullWhitespaces(Part::Input, true), ws, Pr::None], vec![0.25, 0.25, 0.25, 0.25]), wsc, Po::None),
+        9 => g(
+            Pr::Chain(vec![Pr::Switch(vec![Pr::Mark("m".into(), "a".into()), Pr::Mark("m".into(), "b".into())], vec![0.5, 0.5]), ws]),
+            TrainTaskConfig::Generation(true, byte_tok(), true, Some(" => ".into())),
+            Po::Chain(vec![Po::SwitchOnMark("m".into(), vec!["a".into(), "b".into()], vec![Po::None, mask.clone()]), Po::OnMark("m".into(), "a".into(), vec![Po::ClipLength])]),
+        ),
+        10 => g(real, gen, Po::None),
+        11 => g(mixed, cond, Po::Switch(vec![Po::None, mask.clone()], vec![0.5, 0.5])),
+        12 => g(Pr::Chain(vec![ws, Pr::Overwrite(Part::Input)]), gen, mask),
+        13 => TrainPipelineConfig {
+            preprocessing: PreprocessingConfig::PerSource((0..nfiles).map(|k| [ws.clone(), spell.clone(), Pr::None][k % 3].clone()).collect()),
+            task: gen,
+            postprocessing: PostprocessingConfig::PerSource((0..nfiles).map(|k| [Po::None, Po::ClipLength, mask.clone()][k % 3].clone()).collect()),
+        },
+        14 => g(
+            Pr::Switch(vec![Pr::Prefix(Part::Input, "a ".into()), Pr::Suffix(Part::Input, " z".into()), Pr::None], vec![0.3, 0.3, 0.4]),
+            TrainTaskConfig::Classification(byte_tok(), true, vec!["c0".into(), "c1".into(), "c2".into()]),
+            Po::Switch(vec![Po::None, mask], vec![0.5, 0.5]),
+        ),
+        _ => g(Pr::WhitespaceCorruption(Part::Target, 0.2, 0.2, true), cond, Po::None),
+    }
 }
 
 fn strat(s: u64) -> GenerationStrategy {
@@ -126,7 +232,7 @@ fn strat(s: u64) -> GenerationStrategy {
 
 /// the global order of the items (mirror of the generator the loader builds: seed + epoch)
 fn global_order(c: &Cfg) -> Result<Vec<(u64, u64)>, String> {
-    let gens = files(&c.lens, c.bad).iter().map(train_data_generator_from_jsonl).collect::<anyhow::Result<Vec<_>>>().map_err(|e| e.to_string())?;
+    let gens = files_for(&c.lens, c.bad, cls_files(c.prep)).iter().map(train_data_generator_from_jsonl).collect::<anyhow::Result<Vec<_>>>().map_err(|e| e.to_string())?;
     let g = MultiTrainDataGenerator::new(gens, strat(c.strategy), Some(c.seed.wrapping_add(c.epoch))).map_err(|e| e.to_string())?;
     let mut out = vec![];
     // every source is read in order, so the k-th item tagged with a source is its k-th line (also for lines that fail
@@ -137,8 +243,8 @@ fn global_order(c: &Cfg) -> Result<Vec<(u64, u64)>, String> {
         seen[src] += 1;
         match item {
             Ok(item) => {
-                let kk: u64 = item.verif_input().split(' ').next().and_then(|w| w.split('x').nth(1)).and_then(|x| x.parse().ok()).ok_or("bad item")?;
-                if kk != k || is_bad(c.bad, src as u64, k) {
+                let (ks, kk) = find_id(item.verif_input()).ok_or("bad item")?;
+                if kk != k || ks != src as u64 || is_bad(c.bad, src as u64, k) {
                     return Err("generator mirror: item is not the k-th line of its source".into());
                 }
             }
@@ -153,16 +259,11 @@ fn global_order(c: &Cfg) -> Result<Vec<(u64, u64)>, String> {
     Ok(out)
 }
 
-type Fp = (String, String, Vec<u32>, Vec<i32>);
+/// everything an item carries: the preprocessed texts and the task input (ids, labels, pad ids, target ids)
+type Fp = (String, String, String);
 
 fn fingerprint(it: &TrainItem) -> Fp {
-    let (ids, labels) = match &it.input {
-        TrainTaskInput::SequenceClassification { token_ids, labels, .. } => (token_ids.clone(), labels.clone()),
-        TrainTaskInput::Generation { token_ids, labels, .. } => (token_ids.clone(), labels.clone()),
-        TrainTaskInput::Classification { token_ids, label, .. } => (token_ids.clone(), vec![*label]),
-        TrainTaskInput::ConditionalGeneration { token_ids, labels, .. } => (token_ids.clone(), labels.clone()),
-    };
-    (it.data.verif_input().to_string(), it.data.verif_target().to_string(), ids, labels)
+    (it.data.verif_input().to_string(), it.data.verif_target().to_string(), format!("{:?}", it.input))
 }
 
 pub struct RunOut {
@@ -181,14 +282,14 @@ pub fn run_loader(c: &Cfg, order: &[(u64, u64)]) -> Result<RunOut, String> {
 pub fn run_loader_with(c: &Cfg, order: &[(u64, u64)], reused: bool) -> Result<RunOut, String> {
     let pos: BTreeMap<(u64, u64), u64> = order.iter().enumerate().map(|(i, p)| (*p, i as u64)).collect();
     let mut l = VerifTrainLoader::from_files(
-        files(&c.lens, c.bad),
-        pipeline(c.prep),
+        files_for(&c.lens, c.bad, cls_files(c.prep)),
+        pipeline(c.prep, c.lens.len()),
         strat(c.strategy),
         c.threads as u8,
         c.buffer as usize,
         c.batch_limit as usize,
         if c.padded { BatchLimitType::PaddedItemSize } else { BatchLimitType::BatchSize },
-        512,
+        max_len(c.prep),
         c.shuffle,
         c.prefetch as usize,
         c.sort,
@@ -221,11 +322,8 @@ pub fn run_loader_with(c: &Cfg, order: &[(u64, u64)], reused: bool) -> Result<Ru
     while let Some(b) = l.next_batch().map_err(|e| e.to_string())? {
         let mut row = vec![];
         for it in &b {
-            let t = it.data.verif_target();
-            let w = t.split(' ').next().unwrap_or("");
-            let mut ps = w.split('x');
-            let src: u64 = ps.next().and_then(|x| x.parse().ok()).ok_or("bad target")?;
-            let k: u64 = ps.next().and_then(|x| x.parse().ok()).ok_or("bad target")?;
+            // the identity: a whole identity word of the target, or (class labels as targets, corrupted targets) of the input
+            let (src, k) = find_id(it.data.verif_target()).or_else(|| find_id(it.data.verif_input())).ok_or("no identity word left in the item")?;
             let gi = *pos.get(&(src, k)).ok_or("item not in the global order")?;
             row.push((gi, it.size(), fingerprint(it)));
         }
@@ -413,7 +511,7 @@ fn rand_cfg(ctx: &mut Ctx) -> Cfg {
         prefetch: ctx.rng.random_range(0..3),
         batch_limit: ctx.rng.random_range(1..=5),
         padded: false,
-        prep: ctx.rng.random_range(0..5),
+        prep: ctx.rng.random_range(0..N_PREP),
         skip: ctx.rng.random_range(0..=n.min(4)),
         limit: if ctx.rng.random_bool(0.5) { None } else { Some(ctx.rng.random_range(0..=n + 2)) },
         ff: ctx.rng.random_range(0..=4),
@@ -429,9 +527,11 @@ fn rand_cfg(ctx: &mut Ctx) -> Cfg {
 
 pub fn run_c08(ctx: &mut Ctx) {
     ctx.case_timeout = std::time::Duration::from_secs(300);
-    let n = ctx.budget(40, 1500);
+    let n = ctx.budget(48, 1500);
     for i in 0..n {
         let mut c = rand_cfg(ctx);
+        // every pipeline configuration in turn (a quick run sees each of them three times)
+        c.prep = i % N_PREP;
         // values at the top of the integer range: a seed near u64::MAX (seed + epoch, seed + item index), "skip /
         // fast-forward everything", an explicit "no limit"
         if i % 5 == 1 {
